@@ -85,10 +85,16 @@ func (d *tDecoder) Decode(b []byte, base unsafe.Pointer, sd *structDesc, maxdept
 
 	i := 0
 	for {
+		if i >= len(b) {
+			return i, io.ErrShortBuffer
+		}
 		tp := ttype(b[i])
 		i++
 		if tp == tSTOP {
 			break
+		}
+		if len(b)-i < 2 {
+			return i, io.ErrShortBuffer
 		}
 		fid := binary.BigEndian.Uint16(b[i:])
 		i += 2
@@ -110,7 +116,11 @@ func (d *tDecoder) Decode(b []byte, base unsafe.Pointer, sd *structDesc, maxdept
 		t := f.Type
 		p = d.mallocIfPointer(t, p)
 		if t.FixedSize > 0 {
-			i += decodeFixedSizeTypes(t.T, b[i:], p)
+			n, err := decodeFixedSizeTypes(t.T, b[i:], p)
+			if err != nil {
+				return i, fmt.Errorf("decode field %d of struct %s err: %w", fid, sd.rt.String(), err)
+			}
+			i += n
 		} else {
 			var n int
 			var err error
@@ -139,23 +149,26 @@ func (d *tDecoder) Decode(b []byte, base unsafe.Pointer, sd *structDesc, maxdept
 	return i, nil
 }
 
-func decodeFixedSizeTypes(t ttype, b []byte, p unsafe.Pointer) int {
+func decodeFixedSizeTypes(t ttype, b []byte, p unsafe.Pointer) (int, error) {
+	if len(b) < int(typeToSize[t]) {
+		return 0, io.ErrShortBuffer
+	}
 	switch t {
 	case tBOOL, tBYTE:
 		*(*byte)(p) = b[0] // XXX: for tBOOL 1->true, 2->true/false
-		return 1
+		return 1, nil
 	case tDOUBLE, tI64:
 		*(*uint64)(p) = binary.BigEndian.Uint64(b)
-		return 8
+		return 8, nil
 	case tI16:
 		*(*int16)(p) = int16(binary.BigEndian.Uint16(b))
-		return 2
+		return 2, nil
 	case tI32:
 		*(*int32)(p) = int32(binary.BigEndian.Uint32(b))
-		return 4
+		return 4, nil
 	case tENUM:
 		*(*int64)(p) = int64(int32(binary.BigEndian.Uint32(b)))
-		return 4
+		return 4, nil
 	default:
 		panic("bug")
 	}
@@ -216,7 +229,7 @@ func (d *tDecoder) decodeType(t *tType, b []byte, p unsafe.Pointer, maxdepth int
 		return 0, errDepthLimitExceeded
 	}
 	if t.FixedSize > 0 {
-		return decodeFixedSizeTypes(t.T, b, p), nil
+		return decodeFixedSizeTypes(t.T, b, p)
 	}
 	switch t.T {
 	case tSTRING:
@@ -315,14 +328,14 @@ func (d *tDecoder) decodeType(t *tType, b []byte, p unsafe.Pointer, maxdepth int
 				tmp = sliceK
 			}
 			if kt.FixedSize > 0 {
-				i += decodeFixedSizeTypes(kt.T, b[i:], tmp)
+				n, err = decodeFixedSizeTypes(kt.T, b[i:], tmp)
 			} else {
-				if n, err = d.decodeType(kt, b[i:], tmp, maxdepth-1); err != nil {
-					break
-				} else {
-					i += n
-				}
+				n, err = d.decodeType(kt, b[i:], tmp, maxdepth-1)
 			}
+			if err != nil {
+				break
+			}
+			i += n
 			tmp = vp
 			if vt.IsPointer { // tmp = &sliceV[j]
 				if j != 0 { // next
@@ -332,14 +345,14 @@ func (d *tDecoder) decodeType(t *tType, b []byte, p unsafe.Pointer, maxdepth int
 				tmp = sliceV
 			}
 			if vt.FixedSize > 0 {
-				i += decodeFixedSizeTypes(vt.T, b[i:], tmp)
+				n, err = decodeFixedSizeTypes(vt.T, b[i:], tmp)
 			} else {
-				if n, err = d.decodeType(vt, b[i:], tmp, maxdepth-1); err != nil {
-					break
-				} else {
-					i += n
-				}
+				n, err = d.decodeType(vt, b[i:], tmp, maxdepth-1)
 			}
+			if err != nil {
+				break
+			}
+			i += n
 			m.SetMapIndex(k, v)
 		}
 
@@ -412,15 +425,17 @@ func (d *tDecoder) decodeType(t *tType, b []byte, p unsafe.Pointer, maxdepth int
 				vp = sliceData                    // &v[j]
 			}
 
+			var n int
+			var err error
 			if et.FixedSize > 0 {
-				i += decodeFixedSizeTypes(et.T, b[i:], vp)
+				n, err = decodeFixedSizeTypes(et.T, b[i:], vp)
 			} else {
-				n, err := d.decodeType(et, b[i:], vp, maxdepth-1)
-				if err != nil {
-					return i, err
-				}
-				i += n
+				n, err = d.decodeType(et, b[i:], vp, maxdepth-1)
 			}
+			if err != nil {
+				return i, err
+			}
+			i += n
 		}
 		return i, nil
 
